@@ -257,7 +257,7 @@ func parseCompacted(jwsCompact string, verifier SignatureVerifier, opts *jwsPars
 		return nil, fmt.Errorf("build signing input: %w", err)
 	}
 
-	signature, err := base64.RawURLEncoding.DecodeString(parts[jwsSignaturePart])
+	signature, err := decodeSegment(parts[jwsSignaturePart])
 	if err != nil {
 		return nil, fmt.Errorf("decode base64 signature: %w", err)
 	}
@@ -277,10 +277,16 @@ func parseCompacted(jwsCompact string, verifier SignatureVerifier, opts *jwsPars
 
 func parseCompactedPayload(jwsPayload string, opts *jwsParseOpts) ([]byte, error) {
 	if len(opts.detachedPayload) > 0 {
+		// https://tools.ietf.org/html/rfc7515#appendix-F: the payload segment of a JWS with detached content is empty
+		// (anything else would be carried along without being covered by the signature).
+		if jwsPayload != "" {
+			return nil, errors.New("payload segment of a JWS with detached payload must be empty")
+		}
+
 		return opts.detachedPayload, nil
 	}
 
-	payload, err := base64.RawURLEncoding.DecodeString(jwsPayload)
+	payload, err := decodeSegment(jwsPayload)
 	if err != nil {
 		return nil, fmt.Errorf("decode base64 payload: %w", err)
 	}
@@ -288,7 +294,24 @@ func parseCompactedPayload(jwsPayload string, opts *jwsParseOpts) ([]byte, error
 	return payload, nil
 }
 
+// decodeSegment decodes a base64url segment of a compact JWS. The decoder of encoding/base64 skips line breaks and
+// ignores the unused bits of the last character, so several texts decode to the same bytes; since the signing input is
+// rebuilt from the decoded bytes, only the canonical text (the one an encoder produces) is accepted.
+func decodeSegment(segment string) ([]byte, error) {
+	decoded, err := base64.RawURLEncoding.DecodeString(segment)
+	if err != nil {
+		return nil, err
+	}
+
+	if base64.RawURLEncoding.EncodeToString(decoded) != segment {
+		return nil, errors.New("not a canonical base64url encoding")
+	}
+
+	return decoded, nil
+}
+
 func parseCompactedHeaders(parts []string) (Headers, error) {
+	// the header segment enters the signing input as received, it needs no canonical form
 	headersBytes, err := base64.RawURLEncoding.DecodeString(parts[jwsHeaderPart])
 	if err != nil {
 		return nil, fmt.Errorf("decode base64 header: %w", err)
